@@ -98,3 +98,108 @@ for _rel in (False, True):
             def u(U):
                 _skeleton_unit(U, rel, g)
         _mk()
+
+
+# ----------------------------------------------------------------------------------------------
+# call-site contracts of the truncated factorisations
+
+def _cap(r):
+    r = Z(r)
+    return z3.ToInt(r) if r.sort() == z3.RealSort() else r
+
+
+def call_skeleton(ex, st, args, kwargs, node):
+    """matrix_skeleton(A, e, r, [hermitian], rel=, give_to=): proved by the units svd.matrix_skeleton.<abs|rel>.<l|r|m>."""
+    A = st.deref(args[0])
+    if not (isinstance(A, VArr) and A.ndim == 2):
+        raise M.Unsupported('matrix_skeleton of a non-matrix')
+    e = ex.need_num(st, args[1], node) if len(args) > 1 else 1e-10
+    r = ex.need_num(st, args[2], node) if len(args) > 2 else 1e12
+    give = kwargs.get('give_to', VStr('m'))
+    give = give.concrete() if isinstance(give, VStr) else None
+    rel = kwargs.get('rel', False)
+    if give not in ('l', 'r', 'm') or not isinstance(rel, bool):
+        raise M.Unsupported('matrix_skeleton: give_to / rel must be literals at the call site')
+    ex.oblige(st, 'call-pre', 'matrix_skeleton: non-empty matrix, e >= 0, r >= 0',
+              z3.And(Z(A.shape[0]) >= 1, Z(A.shape[1]) >= 1, Z(e) >= 0, Z(r) >= 0), node)
+    if rel:
+        ex.oblige(st, 'call-pre', 'matrix_skeleton(rel=True): non-zero matrix', V.nonzero(A.t) if A.t is not None else False, node)
+    m_, n_ = Z(A.shape[0]), Z(A.shape[1])
+    L, R = ex.fresh('Lsk', T.Mat), ex.fresh('Rsk', T.Mat)
+    q = T.cols(L)
+    cap = _cap(r)
+    st.assume(T.rows(L) == m_, T.rows(R) == q, T.cols(R) == n_, q >= 1, q <= z3.If(cap >= 1, cap, 1),
+              q <= z3.If(m_ <= n_, m_, n_))
+    if give == 'l':
+        st.assume(T.mm(R, T.tr(R)) == T.eye(q))
+    if give == 'r':
+        st.assume(T.mm(T.tr(L), L) == T.eye(q))
+    st.ghost.setdefault('fact_calls', []).append(dict(fn='matrix_skeleton', A=A, e=e, r=r, give=give, rel=rel, L=L, R=R))
+    return VTuple([M.mk_mat(L), M.mk_mat(R)])
+
+
+M.CALLEES['svd.matrix_skeleton'] = call_skeleton
+
+
+def call_matrix_svd(ex, st, args, kwargs, node):
+    """matrix_svd(A, e, r): shapes and rank bounds proved by unit svd.matrix_svd; the orthonormality of the rows of the
+    right factor (for non-zero retained singular values) is an ASSUMED part of this contract (eigen-equation of
+    np.linalg.eigh, A-LAPACK) and is listed in the trusted base."""
+    A = st.deref(args[0])
+    if not (isinstance(A, VArr) and A.ndim == 2):
+        raise M.Unsupported('matrix_svd of a non-matrix')
+    e = ex.need_num(st, args[1], node) if len(args) > 1 else 1e-10
+    r = ex.need_num(st, args[2], node) if len(args) > 2 else 1e12
+    ex.oblige(st, 'call-pre', 'matrix_svd: non-empty matrix, e >= 0, r >= 0',
+              z3.And(Z(A.shape[0]) >= 1, Z(A.shape[1]) >= 1, Z(e) >= 0, Z(r) >= 0), node)
+    m_, n_ = Z(A.shape[0]), Z(A.shape[1])
+    L, R = ex.fresh('Usvd', T.Mat), ex.fresh('Vsvd', T.Mat)
+    q = T.cols(L)
+    cap = _cap(r)
+    st.assume(T.rows(L) == m_, T.rows(R) == q, T.cols(R) == n_, q >= 1, q <= z3.If(cap >= 1, cap, 1),
+              q <= z3.If(m_ <= n_, m_, n_))
+    st.assume(T.mm(R, T.tr(R)) == T.eye(q))
+    M.used('ASSUMED contract clause: matrix_svd returns a right factor with orthonormal rows when the retained singular '
+           'values are non-zero (eigen-equation of np.linalg.eigh)')
+    st.ghost.setdefault('fact_calls', []).append(dict(fn='matrix_svd', A=A, e=e, r=r, give='l', rel=False, L=L, R=R))
+    return VTuple([M.mk_mat(L), M.mk_mat(R)])
+
+
+M.CALLEES['svd.matrix_svd'] = call_matrix_svd
+
+
+# ----------------------------------------------------------------------------------------------
+# matrix_svd (eigen-decomposition variant)
+
+@unit('svd.matrix_svd', props=('C02', 'C03', 'C11'))
+def u_matrix_svd(U):
+    fn = U.func('svd', 'matrix_svd')
+    ex = U.executor(fn, axioms=AX)
+    st = U.state()
+    A, a = S.mat_param('A')
+    e, r = z3.Real('e'), z3.Real('r')
+    st.vars.update(A=A, e=e, r=r)
+    m_, n_ = T.rows(a), T.cols(a)
+    res = U.run(ex, st, pre=[m_ >= 1, n_ >= 1, e >= 0, r >= 0])
+    U.cover('precondition-satisfiable', U.pre, axioms=AX)
+    cap = z3.ToInt(r)
+    for p, o in res:
+        if o.kind != 'return':
+            U.post('no-exception', p, False, axioms=AX)
+            continue
+        L, R = [p.deref(x) for x in o.value.items]
+        if len(p.ghost.get('cumsum', [])) != 1 or len(p.ghost.get('sorted', [])) != 1:
+            raise M.ContractMismatch('matrix_svd: expected one cumsum and one descending sort of the eigenvalue roots')
+        (_, Cv), = p.ghost['cumsum']
+        (_, wsorted), = p.ghost['sorted']
+        k = Z(wsorted.shape[0])
+        U.post('spectrum-has-min-dimension-entries', p, k == z3.If(m_ <= n_, m_, n_), axioms=AX)
+        # tail(j) = sum_{t >= j} w_t^2 over the descending singular values w (the roots of the clipped eigenvalues)
+        tail, tax = tail_def('tail', lambda j: wsorted.t[j], k)
+        lem = tail_lemma(U, p, Cv.t, tail, tax, k, AX)
+        q = Z(p.vars['rank'])
+        dlen = p.vars['dlen']
+        U.post('factor-shapes', p, z3.And(Z(L.shape[0]) == m_, Z(L.shape[1]) == q, Z(R.shape[0]) == q, Z(R.shape[1]) == n_), axioms=AX)
+        for lbl, g in rank_post(q, k, cap, tail, e * e, k - Z(dlen)).items():
+            U.post(lbl, p, g, axioms=AX, extra=tax + [lem])
+        U.canary('canary-rank-is-1', p, q == 1, axioms=AX)
